@@ -14,3 +14,6 @@ CHECKS["C09"] = props_rel.check_c09
 CHECKS["C14"] = props_rel.check_c14
 CHECKS["C15"] = props_rel.check_c15
 CHECKS["C16"] = props_rel.check_c16
+
+from harness import props_c11
+CHECKS["C11"] = props_c11.check
